@@ -131,6 +131,29 @@ pub fn menu(quick: bool) -> Vec<(String, LmSpec)> {
             }
         }
     }
+    // objectives of magnitude well below 1 (values of a few hundredths): a relative gap must stay relative
+    for n in [5usize, 7] {
+        if quick && n == 5 {
+            continue;
+        }
+        let tot: f64 = w[..n].iter().sum();
+        let small: Vec<f64> = v[..n].iter().enumerate().map(|(i, x)| (x + ((i * 3) % 4) as f64) / 128.0).collect();
+        out.push((format!("small-objective-knapsack-n{n}"), LmSpec { vars: bools(n), rows: vec![row(&w[..n], Rel::Le, (tot / 2.0).floor(), "cap")], obj: small.clone(), offset: 0.0, sense: Sense::Max }));
+        out.push((format!("small-objective-covering-n{n}"), LmSpec { vars: bools(n), rows: vec![row(&w[..n], Rel::Ge, (tot / 2.0).floor(), "need")], obj: small, offset: 0.0, sense: Sense::Min }));
+    }
+    // values nearly proportional to the weights, all below 0.06: the first incumbent of a depth-first search is
+    // far from the optimum in relative terms while every absolute difference is tiny
+    {
+        let wts = [39.0, 42.0, 22.0, 46.0, 25.0, 10.0, 43.0];
+        let vals = [0.046, 0.048, 0.026, 0.05, 0.027, 0.01, 0.052];
+        for cap in [102.0, 90.0, 120.0] {
+            if quick && cap != 102.0 {
+                continue;
+            }
+            out.push((format!("small-objective-proportional-knapsack-cap{cap}"), LmSpec { vars: bools(7), rows: vec![row(&wts, Rel::Le, cap, "cap")], obj: vals.to_vec(), offset: 0.0, sense: Sense::Max }));
+            out.push((format!("small-objective-proportional-covering-need{cap}"), LmSpec { vars: bools(7), rows: vec![row(&wts, Rel::Ge, cap, "need")], obj: vals.to_vec(), offset: 0.0, sense: Sense::Min }));
+        }
+    }
     // unbounded through a continuous variable
     out.push((
         "unbounded-mixed".into(),
@@ -214,7 +237,7 @@ pub fn menu(quick: bool) -> Vec<(String, LmSpec)> {
 }
 
 const DOORS: [&str; 2] = ["free-function", "builder-Microlp"];
-const GAPS: [Option<f64>; 11] = [None, Some(0.0), Some(1e-9), Some(0.1), Some(0.5), Some(10.0), Some(-1.0), Some(-0.0), Some(f64::NAN), Some(f64::INFINITY), Some(f64::NEG_INFINITY)];
+const GAPS: [Option<f64>; 12] = [None, Some(0.0), Some(1e-9), Some(0.05), Some(0.1), Some(0.5), Some(10.0), Some(-1.0), Some(-0.0), Some(f64::NAN), Some(f64::INFINITY), Some(f64::NEG_INFINITY)];
 
 fn gap_valid(g: Option<f64>) -> bool {
     match g {
@@ -387,7 +410,7 @@ pub fn run(mut run: Run) -> ! {
     run.isolate = true;
     run.case_timeout_s = 60.0;
     let m = menu(run.quick());
-    run.rule = "for every MILP/LP model of the menu (knapsack, covering, near-tie knapsacks and coverings at objective scale 1e4 and 1e6 where many selections lie within 1e-4 of the optimum, mixed-integer, general-integer, infeasible, unbounded, pure LP, 60 (thorough: 600) mixed-integer models compiled from the C02 objective family; plus every knapsack (max, <=) and covering (min, >=) problem over weight/value menus of 3 values: all 2 x 729 three-item ones in the quick tier, all 2 x 6561 four-item ones in the thorough tier) the number N of clock reads of the uninterrupted search is measured under the virtual clock, then the search is run for EVERY expiry point k = 0..N+1 (time_limit = k ns) x 11 mip_gap values x 2 entry points (solve_milp_lp_problem_with; the builder solver object Microlp::new().with_mip_gap().with_time_limit() in both call orders), plus the builder object with a gap and no time limit; evaluations = models, coverage.expiry_points = executions; non-trivial = model with a finite optimum".into();
+    run.rule = "for every MILP/LP model of the menu (knapsack, covering, near-tie knapsacks and coverings at objective scale 1e4 and 1e6 where many selections lie within 1e-4 of the optimum, knapsacks and coverings whose objective values are a few hundredths, mixed-integer, general-integer, infeasible, unbounded, pure LP, 60 (thorough: 600) mixed-integer models compiled from the C02 objective family; plus every knapsack (max, <=) and covering (min, >=) problem over weight/value menus of 3 values: all 2 x 729 three-item ones in the quick tier, all 2 x 6561 four-item ones in the thorough tier) the number N of clock reads of the uninterrupted search is measured under the virtual clock, then the search is run for EVERY expiry point k = 0..N+1 (time_limit = k ns) x 12 mip_gap values x 2 entry points (solve_milp_lp_problem_with; the builder solver object Microlp::new().with_mip_gap().with_time_limit() in both call orders), plus the builder object with a gap and no time limit; evaluations = models, coverage.expiry_points = executions; non-trivial = model with a finite optimum".into();
     run.assume("virtual clock replaces crate web-time (the only clock microlp reads): each read advances time by 1 ns, so real executions are a subset of the enumerated expiry points (a real deadline also fires at some clock read and stays fired)");
     run.assume("exact MILP optimum by integer box enumeration + exact LP; feasibility certificate at 1e-6; Optimal label must be within gap*max(|value|,1e-10) (+1e-6 relative) of the optimum");
     let m2 = m.clone();
